@@ -143,6 +143,28 @@ struct grule
 struct gram { int strict; int nterm, nrule; struct gterm *terms; struct grule *rules; };
 static struct gram grams[MAXG];
 static char *texts[MAXTEXT];
+
+/* Uninitialised stack memory that ends up in a result must show: before every definition the part
+   of the stack the library is going to use is filled with a pattern (ASan does not see reads of
+   uninitialised memory).  */
+#define POISON 0xAB
+static void __attribute__ ((noinline))
+poison_stack (void)
+{
+  volatile unsigned char buf[24576];
+  size_t i;
+  for (i = 0; i < sizeof buf; i++) buf[i] = POISON;
+}
+static int
+count_poison (const char *m)
+{
+  int n = 0;
+  for (; *m; m++) if ((unsigned char) *m == POISON) n++;
+  return n;
+}
+/* Number of pattern bytes in what the caller passed (names, description text): a message may
+   repeat those.  */
+static int input_poison;
 static G handles[MAXH];
 static int opn;			/* current op number */
 static char prefix[64];
@@ -595,13 +617,14 @@ run_case (int case_timeout)
 #ifdef YAEP_VERIF
 	      yaep_verif_out = stdout; yaep_verif_flags = 1; yaep_verif_prefix = prefix;
 #endif
+	      poison_stack ();
 	      rc = G_READ (handles[h], cur_gram->strict, cb_read_terminal, cb_read_rule);
 #ifdef YAEP_VERIF
 	      yaep_verif_flags = 0;
 #endif
 	      tmp_release ();
 	      m = G_ERRMSG (handles[h]);
-	      printf ("%sdef rc=%d code=%d msglen=%d\n", prefix, rc, G_ERRCODE (handles[h]), (int) strlen (m));
+	      printf ("%sdef rc=%d code=%d msglen=%d poison=%d\n", prefix, rc, G_ERRCODE (handles[h]), (int) strlen (m), count_poison (m) > input_poison);
 	      if (rc != 0) printf ("%smsg %d %s\n", prefix, (int) strlen (m), m);
 	    }
 	  else if (!strcmp (cmd, "descr"))
@@ -613,13 +636,15 @@ run_case (int case_timeout)
 #ifdef YAEP_VERIF
 	      yaep_verif_out = stdout; yaep_verif_flags = 1; yaep_verif_prefix = prefix;
 #endif
+	      poison_stack ();
+	      input_poison += count_poison (copy);
 	      rc = G_DESCR (handles[h], strict, copy);
 #ifdef YAEP_VERIF
 	      yaep_verif_flags = 0;
 #endif
 	      memset (copy, 0x5a, n + 1); free (copy);
 	      m = G_ERRMSG (handles[h]);
-	      printf ("%sdef rc=%d code=%d msglen=%d\n", prefix, rc, G_ERRCODE (handles[h]), (int) strlen (m));
+	      printf ("%sdef rc=%d code=%d msglen=%d poison=%d\n", prefix, rc, G_ERRCODE (handles[h]), (int) strlen (m), count_poison (m) > input_poison);
 	      if (rc != 0) printf ("%smsg %d %s\n", prefix, (int) strlen (m), m);
 	    }
 	  else if (!strcmp (cmd, "set"))
